@@ -273,6 +273,8 @@ def _iteration_order(t):
 def emit_case(c) -> str:
     if c["kind"] == "pair":
         return f"(CPair {cbool(c['fp'])} {lit(c['v'])} {lit(c['w'])})"
+    if c["kind"] == "pickle":
+        return f"(CPickle {lit(c['v'])})"
     return f"(CMemo {clist([lit(a) for a in c['args']])})"
 
 
@@ -293,11 +295,23 @@ def canon(k):
     return f"{type(k).__name__}:{k!r}"
 
 
+def _pk(key):
+    """The DiskCache file-name hash of a key (None when the key cannot be pickled)."""
+    from pipefunc.cache import _pickle_key
+
+    try:
+        return _pickle_key(key)
+    except Exception as e:  # noqa: BLE001
+        return f"PICKLE-ERR {type(e).__name__}"
+
+
 def _key_of(fp, tree):
     from pipefunc.cache import to_hashable
 
     try:
-        obj = build(tree)
+        # round trip through JSON text: no accidental object sharing between equal strings of the tree (pickle
+        # memoises by identity, so _pickle_key would depend on how the harness happened to build the value)
+        obj = build(json.loads(json.dumps(tree)))
     except Exception as e:  # noqa: BLE001
         return None, ("bad-case", f"{type(e).__name__}: {e}")
     try:
@@ -326,9 +340,9 @@ def second_main():
     for fp, tree in reqs:
         k, err = _key_of(fp, tree)
         try:
-            out.append(canon(k[0]) if k is not None else "ERR")
+            out.append([canon(k[0]), _pk(k[0])] if k is not None else ["ERR", "ERR"])
         except Exception as e:  # noqa: BLE001
-            out.append(f"CANON-ERR {type(e).__name__}")
+            out.append([f"CANON-ERR {type(e).__name__}", "ERR"])
     sys.stdout.write("\n@@C15@@" + json.dumps(out))
 
 
@@ -375,7 +389,7 @@ def _side(fp, tree):
     if sg not in _SECOND:
         _second_batch([(fp, tree)])
     try:
-        stable = canon(key) == _SECOND[sg]
+        stable = canon(key) == _SECOND[sg][0]
     except Exception:  # noqa: BLE001
         stable = False
     return k, Ok(h), stable
@@ -397,6 +411,14 @@ def run_impl(c):
         else:
             eq = None
         return [ov, ow, eq, sv, sw]
+    if c["kind"] == "pickle":
+        k, err = _key_of(True, c["v"])
+        if k is None:
+            return err
+        sg = _sig(True, c["v"])
+        if sg not in _SECOND:
+            _second_batch([(True, c["v"])])
+        return Ok(_pk(k[0]) == _SECOND[sg][1])
     # memoize call sequence: the body reports which call executed it
     from pipefunc.cache import memoize
 
@@ -940,6 +962,30 @@ LOOKALIKES = [
 ]
 
 
+def _seeded(t):
+    if t[0] == "s":
+        return t[1] != ""
+    if t[0] == "y":
+        return len(t[1]) > 0
+    return any(_seeded(x) for x in children(t))
+
+
+def _seed_dep(t):
+    """Python mirror of Run_C15.seed_dep on VALUES (a frozenset survives into the key unchanged; sets are sorted)."""
+    return _has(t, lambda u: u[0] == "F" and len(u[1]) >= 2 and any(_seeded(x) for x in u[1]))
+
+
+_S4 = [["s", "a"], ["s", "b"], ["s", "ab"], ["s", "B"], ["s", "a b"], ["s", "1"]]
+PICKLE_WITNESSES = [
+    ["L", [["F", _S4], ["i", 1]]],                      # [frozenset({'a','b','ab','B','a b','1'}), 1]
+    ["D", [[["F", _S4], ["i", 1]]]],                    # {frozenset({...}): 1}
+    ["L", [["T", [["F", _S4]]]]],
+    ["S", _S4], ["L", [["S", _S4]]],                    # sets are sorted: stable
+    ["L", [["F", _i(1, 2, 3, 7, 255)]]],                # frozenset of ints: stable
+    ["D", [[["s", "a"], ["i", 1]], [["s", "b"], ["i", 2]]]],
+]
+
+
 def _size(t):
     return 1 + sum(_size(x) for x in children(t)) + (
         sum(_size(a) + _size(b) for a, b in (t[2] if t[0] == "E" else t[1])) if t[0] in ("D", "O", "E", "C") else 0)
@@ -996,9 +1042,19 @@ def generate(rng, tier, mult):
         cases.append({"kind": "memo", "args": args})
     for v, w in LOOKALIKES[:40]:
         cases.append({"kind": "memo", "args": [v, w, v, w]})
+    # DiskCache file names (_pickle_key of the key) in two interpreters.  Values whose key holds a frozenset with a
+    # seed dependent iteration order are generated only as the fixed, verified witnesses below (whether two given
+    # seeds produce different orders is a coincidence the model cannot predict).
+    for v in PICKLE_WITNESSES:
+        cases.append({"kind": "pickle", "v": v})
+    for j, c in enumerate(list(cases)):
+        if c["kind"] == "pair" and c["fp"] and j % 4 == 0 and not _seed_dep(c["v"]):
+            cases.append({"kind": "pickle", "v": c["v"]})
     # all keys of this run in ONE second interpreter
     reqs = []
     for c in cases:
+        if c["kind"] == "pickle":
+            reqs.append((True, c["v"]))
         if c["kind"] == "pair":
             reqs += [(c["fp"], c["v"]), (c["fp"], c["w"])]
     _second_batch(reqs)
@@ -1018,6 +1074,8 @@ def _kinds(t, acc):
 
 
 def nontrivial_key(c):
+    if c["kind"] == "pickle":
+        return ("pickle", c["v"]) if c["v"][0] not in ("i", "b", "f", "s", "y", "n") else None
     if c["kind"] == "memo":
         return ("memo", c["args"]) if len(c["args"]) >= 2 else None
     atoms = ("i", "b", "f", "s", "y", "n", "t", "m", "o")
@@ -1027,6 +1085,8 @@ def nontrivial_key(c):
 
 
 def distribution(c):
+    if c["kind"] == "pickle":
+        return {"kind": "pickle", "top_v": c["v"][0]}
     if c["kind"] == "memo":
         return {"kind": "memo", "calls": len(c["args"])}
     return {"kind": "pair", "how": c.get("how", "?"), "top_v": c["v"][0], "fp": c["fp"]}
@@ -1059,6 +1119,8 @@ def _cls(a):
 
 
 def finding_id(c, impl_obs, kind):
+    if c["kind"] == "pickle":
+        return "diskcache-pickle-key-hashseed-frozenset" if _seed_dep(c["v"]) else None
     vals = [c["v"], c["w"]] if c["kind"] == "pair" else list(c["args"])
     if any(_has(v, lambda t: t[0] in ("SR", "DF")) for v in vals):
         return "pandas-key-loses-index-dtype-order"
@@ -1084,6 +1146,8 @@ def finding_id(c, impl_obs, kind):
 
 def shrink(c):
     out = []
+    if c["kind"] == "pickle":
+        return [{"kind": "pickle", "v": _set(c["v"], path, ["i", 0])} for path in _paths(c["v"])[1:]]
     if c["kind"] == "memo":
         for j in range(len(c["args"])):
             if len(c["args"]) > 2:
